@@ -48,6 +48,54 @@ CHECKS = {
         note="Formula model compared below ~9*10^8 only (32-bit TLC integers); requirement compared everywhere via limbs.", ref="DESIGN.md section 4 C14"),
 }
 
+
+CHECKS.update({
+    "C06": dict(
+        cat="model_checking", tech="Search.tla exhaustively model-checked (every abort point / stop arrival / final and non-final roots); TLC trace validation of real search.Go and UCI go runs against Chess.tla",
+        text="Real searches on corpus, boxed-king, castle-stress and random roots with game prefixes (incl. second/third occurrences): every hard node budget 0..k on ONE engine instance (each k is one abort point, engine searched again after each abort), soft limits, pre-closed stop, stop closed when the depth-d info line passes, TT sizes 32 kB/1 MB/16 MB, used engines on new positions; UCI go with arbitrary numeric arguments. TLC computes root, legal set and finality from FEN + prefix and requires: move null or legal, null only if final, completed search on a final root returns null with score 0/mated, board snapshot identical, one bestmove. Known finding F4-C06 matched by predicate.",
+        note="Sampled roots and limits; Search.tla's tree search is abstract.", ref="DESIGN.md section 4 C06"),
+    "C07": dict(
+        cat="model_checking", tech="TLC replays every reported principal variation through Chess!Make/Legal; Search.tla properties DepthsIncrease/NodesMonotone/BestIsHeadOfLastPV",
+        text="Deeper searches (depth up to 8/9) along games on one engine (warmed tables), repetition-heavy histories, tiny 32 kB tables; every pv of every info line must be a legal line from the root, the returned move the head of the most recent non-empty pv, the ponder move legal after it, depths strictly increasing, node counts non-decreasing.",
+        note="Sampled searches.", ref="DESIGN.md section 4 C07"),
+    "C08": dict(
+        cat="model_checking", tech="whole games on separate engine instances: soft-limit run A, concurrent repeats C/D, hard-budget replay B; ReproTrace.tla compares lines, results, node counts and state digests; Search.tla NeverOverBudget/NoStoreAfterAbort",
+        text="Engines are run exactly as the UCI driver runs them (no counters handed in), boards from board.StartPos() and FEN; A=C=D on every search (info lines without time, result, node count, digest of TT+histories+generation), B (hard budget = A's node count) reproduces A's result, lines, node count and digest with at most one extra abort line; nodes <= hard at every event incl. every budget 0..k in sweeps.",
+        note="Digest is FNV over TT + history tables (verif hook).", ref="DESIGN.md section 4 C08"),
+    "C11": dict(
+        cat="exploration", tech="TLC (Fen.tla) generates canonical texts with their positions and all single syntactic edits; Go replayer probes parser/printer/UCI; TLC judges (FenTrace.tla); round trip via GameTrace",
+        text="Round trip: FEN text -> FromFEN -> projection must be the position the text denotes by the spec's own printer, FEN() must print it back (positions incl. heavy promoted material, along games). Robustness: for ~100 (900) base positions TLC enumerates semantic edits (canonical, with expected position) and all single syntactic edits (truncate/delete/replace/insert over the FEN alphabet and ANY byte, field dup/drop/swap, 25-digit counters); no panic in ParseFEN/FromFEN/FEN, same result into a reused board, UCI position never installs a rejected position and accepts every promotion-reachable canonical FEN.",
+        note="Not a byte-level fuzzer: single edits of canonical texts (ANY expanded to 256 bytes).", ref="DESIGN.md section 4 C11"),
+    "C13": dict(
+        cat="model_checking", tech="Uci.tla exhaustively model-checked (all conforming scripts <= 3/4 commands: safety, deadlock freedom, termination); observable-event trace validation with TLC inferring the driver's hidden steps; race detector",
+        text="Random conforming GUI scripts drive a real uci.Driver over pipes with a controllable mock search (info / poll stop / poll ponderhit / finish on command) or the real search, racing or waiting, slow output sink; only observable events (command about to be sent, line arrived, mock search steps, exit) are logged and every scenario must be a behaviour of Uci.tla up to Run returning with all goroutines gone; a harness wait that times out is accepted only where the model is quiescent too (else: deadlock/lost answer). A quarter of the scenarios run under the race detector; output lines are matched against the output grammar (torn lines).",
+        note="Timeouts are 20 s with everything else idle; -race build uses -d=checkptr=0.", ref="DESIGN.md section 4 C13"),
+    "C15": dict(
+        cat="model_checking", tech="TT.tla (code-shaped table + ghost 'what was stored') exhaustively model-checked on small domains and simulated on real widths; lock-step trace validation of a real transp.Table with colliding keys",
+        text="Operation sequences (store/probe/clear/resize-then-clear, bare resize followed by use) on tables of 1..32768 buckets with keys constructed to collide in bucket and/or signature, generations incl. wrap, depths/plies 0..63, scores across mate and boundary values; after every store the dumped bucket must equal TT.tla's bucket, every probe must satisfy ProbeOK (the property on the ghost state) and equal the model's probe; ProbeAfterStore, AtMostOneEviction, match64 lane selection.",
+        note="Victim choice is modelled (any divergence from the code's choice is reported); the exact mate boundary +-(Inf-64) accepts both readings.", ref="DESIGN.md section 4 C15"),
+    "C16": dict(
+        cat="model_checking", tech="Picker.tla and History.tla model-checked (permutation / hash-first for all small instances; one-step band bound over all stored values x bonuses; necessity counterexample); TLC trace validation of picker runs and gravity triples",
+        text="Picker iterated to exhaustion for sampled positions x hash-move candidates (every generated move, none, random and near-miss encodings) x history states (empty, driven, saturated): yielded = Pseudo(pos) exactly once each, hash move first iff pseudo-legal (spec's notion), weights inside their bands. Gravity: (table, stored value, bonus, new value) for all three tables against History!Step and the band.",
+        note="Positions sampled; History one-step bound exhaustive in the thorough tier, thinned rows in quick.", ref="DESIGN.md section 4 C16"),
+    "C17": dict(
+        cat="exploration", tech="TLC (HeurTrace.tla) re-establishes mirror / same-eval-key relations with Chess!Mirror and requires equal evaluations",
+        text="For each sampled position: evaluation of the position, of its mirror (built independently, verified by Chess!Mirror), again after unrelated evaluations, with rights/en-passant/fullmove changed, after null-move and make/undo round trips, loaded without hash, and through the UCI eval command; material classes forced (promoted pieces, bare kings, insufficient material, KNB v K both colours).",
+        note="The evaluation function itself is not modelled (uninterpreted).", ref="DESIGN.md section 4 C17"),
+    "C18": dict(
+        cat="model_checking", tech="See.tla: recursive capture-sequence minimax returning the set of achievable balances; TLC requires the SEE answers over 109 thresholds to match one balance",
+        text="For legal moves of sampled positions (game positions, en-passant, castle stress, constructed batteries with x-rays on files and diagonals) heur.SEE is called for thresholds -1350..1350 step 50 and +-1 around multiples of 100; TLC computes Balances(pos, m) and requires some balance v with answer(t) = (v >= t) for all t, and monotonicity.",
+        note="Sampled positions.", ref="DESIGN.md section 4 C18"),
+    "C19": dict(
+        cat="exploration", tech="TLC judges recorded float/int evaluation pairs and the vector mapping against Tuner.tla's dense-packing model",
+        text="Float evaluation with the shipped coefficients vs integer evaluation on generated valid positions loaded without hash (|f*1000 - i*1000*sign| < 2250); vector mapping: for every singleton, pairs, random subsets and the default target list, SetVector/ToVector/TunedParams must address PathOf(layout, targets, k) for probed k.",
+        note="Both evaluations are opaque to the model.", ref="DESIGN.md section 4 C19"),
+    "C20": dict(
+        cat="model_checking", tech="Tuner.tla: 4-round unbalanced Feistel with ARBITRARY round functions is a bijection (all widths, TLC), cycle walking a permutation, batches/chunks partition; TunerTrace.tla validates every NewChunker/Batches/Chunks/Open/Read call on generated files",
+        text="Files with every line count 1..40 (200), powers of two +-1, blank lines inside and at the end, lines near 4 KiB, 100k+ lines (several batches; short remainders) and a 36 MB big-line file (read-buffer refills), driven as server.go/client.go do; shuffle permutations for all n <= 3000 (20000), 16 epochs + random 64-bit epochs, windows up to 2^24+1.",
+        note="Feistel model is bound to the code through outputs only (64-bit arithmetic is outside TLC).", ref="DESIGN.md section 4 C20"),
+})
+
 NOT_YET = {}
 
 
